@@ -96,7 +96,8 @@ Proof. unfold lookup_default. now rewrite lookup_empty. Qed.
 Lemma allocate_awf fuel a al : awf a -> a_allocate fuel a = OK al ->
   (forall x y, In (x, y) (a_edges a) -> phys (lk al x) /\ phys (lk al y) /\ lk al x <> lk al y)
   /\ (forall v c, al !! v = Some c -> virt v /\ phys c /\ id_kind c = id_kind v)
-  /\ (forall v, is_Some (a_poss a !! v) -> is_Some (al !! v)).
+  /\ (forall v, is_Some (a_poss a !! v) -> is_Some (al !! v))
+  /\ (forall v c, al !! v = Some c -> In c (a_regs a)).
 Proof.
   intros [W1 W2 W3 W4 W5] H.
   assert (Hinv : AInv (a_edges a) (a_alloc a) (a_edges a) (a_poss a)).
@@ -107,8 +108,9 @@ Proof.
     - auto.
     - intros e He. unfold ends_in. rewrite !lk_empty. now apply W5.
     - intros x y Hin. now left. }
-  destruct (allocate_sound (a_edges a) fuel a al Hinv H) as (_ & K2 & K3 & _ & K5).
-  split; [exact K5|]. split; [exact K2|exact K3].
+  destruct (allocate_sound (a_edges a) fuel a al Hinv H) as (_ & K2 & K3 & K4 & K5).
+  split; [exact K5|]. split; [exact K2|]. split; [exact K3|].
+  intros v c Hl. destruct (K4 v c Hl) as [He|Hc]; [rewrite W1, lookup_empty in He; discriminate|]. now destruct (W4 v c Hc).
 Qed.
 
 (* ---- merging the per-kind allocations *)
@@ -354,7 +356,7 @@ Proof.
   assert (P1 : forall v c, al !! v = Some c -> virt v /\ phys c /\ id_kind c = id_kind v).
   { intros v c Hl. destruct (F3 v c Hl) as [Hemp|(ka & alk & Hin & Ha & Hl')]; [rewrite lookup_empty in Hemp; discriminate|].
     destruct ka as [k a]. apply elem_of_list_In, elem_of_map_to_list in Hin.
-    destruct (allocate_awf _ _ _ (W2 k a Hin) Ha) as (_ & K2 & _). now apply K2. }
+    destruct (allocate_awf _ _ _ (W2 k a Hin) Ha) as (_ & K2 & _ & _). now apply K2. }
   split; [exact P1|].
   assert (Hkeys : forall v c, al !! v = Some c -> virt v) by (intros v c Hl; now destruct (P1 v c Hl)).
   assert (Hkind : forall x, id_kind (lk al x) = id_kind x).
@@ -365,7 +367,7 @@ Proof.
   - destruct (Hedge i lo d y k Hin Hd ltac:(eauto) Hne Hk Hb Hm) as (a2 & Ha2 & He).
     assert (Hka : In (reg_kind d, a2) (map_to_list as2)) by (apply elem_of_list_In, elem_of_map_to_list; exact Ha2).
     destruct (F2 _ Hka) as (alk & Ha & Hsub). cbn [snd] in Ha.
-    destruct (allocate_awf _ _ _ (W2 _ _ Ha2) Ha) as (K1 & _ & _).
+    destruct (allocate_awf _ _ _ (W2 _ _ Ha2) Ha) as (K1 & _ & _ & _).
     destruct (K1 _ _ He) as (Pd & Py & Hdiff).
     rewrite (lk_of_sub alk al y Hsub Hkeys Py), (lk_of_sub alk al (rid d) Hsub Hkeys Pd) in Heq. now apply Hdiff.
   - (* no allocator of this kind: no virtual register of this kind is an operand *)
@@ -384,4 +386,97 @@ Proof.
     assert (Ld : lk al (rid d) = rid d).
     { unfold lookup_default. destruct (al !! rid d) as [c|] eqn:E; cbn [default]; [|reflexivity]. exfalso. eapply virt_not_phys; eauto. }
     rewrite Ly, Ld in Heq. contradiction.
+Qed.
+
+
+(* ---- C03: the allocation obeys the register file *)
+Definition regfile_kinds_ok (rf : regfile) : bool := forallb (fun p => id_kind (p_id p) =? p_family p) rf.
+
+Definition Rall (rf : regfile) (asx : ALLOCS) : Prop := forall k a, asx !! k = Some a -> a_regs a = colours rf k.
+
+Lemma a_add_interference_regs a x y : a_regs (a_add_interference a x y) = a_regs a.
+Proof. unfold a_add_interference. cbn [a_regs]. now rewrite !a_add_regs. Qed.
+Lemma a_ais_regs d order : forall a, a_regs (a_add_interference_set a d order) = a_regs a.
+Proof.
+  unfold a_add_interference_set. induction order as [|e order IH]; intro a; cbn [fold_left]; [reflexivity|].
+  rewrite IH. destruct (negb (N.land (rmask d) (snd e) =? 0)); [apply a_add_interference_regs|reflexivity].
+Qed.
+Lemma Rall_insert rf x k a a' : Rall rf x -> x !! k = Some a -> a_regs a' = a_regs a -> Rall rf (<[k := a']> x).
+Proof.
+  intros R Hk Hr k' b Hb. destruct (decide (k = k')) as [<-|Hne].
+  - rewrite lookup_insert in Hb. inversion Hb; subst b. rewrite Hr. now apply R.
+  - rewrite lookup_insert_ne in Hb by assumption. now apply R.
+Qed.
+Lemma init_allocators_regs rf rs : forall asx asx', Rall rf asx -> init_allocators rf rs asx = OK asx' -> Rall rf asx'.
+Proof.
+  induction rs as [|r rs IH]; intros asx asx' R H; cbn [init_allocators] in H; [now inversion H; subst|].
+  destruct (asx !! reg_kind r) as [a0|] eqn:E; [now apply (IH _ _ R H)|].
+  destruct (new_allocator rf (reg_kind r)) as [a| |] eqn:En; cbn [res_bind] in H; try discriminate.
+  apply (IH _ _) in H; [exact H|]. intros k b Hb. destruct (decide (reg_kind r = k)) as [<-|Hne].
+  - rewrite lookup_insert in Hb. inversion Hb; subst b. unfold new_allocator in En.
+    destruct (negb (family_exists (reg_kind r))); [discriminate|]. destruct (colours rf (reg_kind r)) eqn:Ec; [discriminate|]. now inversion En.
+  - rewrite lookup_insert_ne in Hb by assumption. now apply R.
+Qed.
+Lemma add_all_regs rf rs : forall asx, Rall rf asx -> Rall rf (add_all rs asx).
+Proof.
+  unfold add_all. induction rs as [|r rs IH]; intros asx R; cbn [fold_left]; [exact R|]. apply IH.
+  destruct (asx !! reg_kind r) as [a|] eqn:E; [|exact R]. eapply Rall_insert; eauto. apply a_add_regs.
+Qed.
+Lemma interfere1_regs rf asx lo d asx' : Rall rf asx -> interfere1 asx lo d = OK asx' -> Rall rf asx'.
+Proof.
+  intros R H. unfold interfere1 in H. destruct (asx !! reg_kind d) as [a|] eqn:E; inversion H; subst; [|exact R].
+  eapply Rall_insert; eauto. apply a_ais_regs.
+Qed.
+Lemma ifold_regs rf lo outs : forall asx asx', Rall rf asx -> ifold asx lo outs = OK asx' -> Rall rf asx'.
+Proof.
+  unfold ifold. induction outs as [|d outs IH]; intros asx asx' R H; cbn [fold_left] in H; [now inversion H; subst|].
+  cbn [res_bind] in H. destruct (interfere1 asx lo d) as [asx1| |] eqn:E1.
+  - eapply IH; [|exact H]. eapply interfere1_regs; eauto.
+  - exfalso. clear -H. induction outs as [|x l IHl]; cbn in H; [discriminate|]. now apply IHl.
+  - exfalso. clear -H. induction outs as [|x l IHl]; cbn in H; [discriminate|]. now apply IHl.
+Qed.
+Lemma interfere_regs rf l : forall asx asx', Rall rf asx -> interfere asx l = OK asx' -> Rall rf asx'.
+Proof.
+  induction l as [|[i lo] l IH]; intros asx asx' R H; cbn [interfere] in H; [now inversion H; subst|].
+  fold (ifold asx lo (output_registers i)) in H.
+  destruct (ifold asx lo (output_registers i)) as [asx1| |] eqn:E1; cbn [res_bind] in H; try discriminate.
+  eapply IH; [|exact H]. eapply ifold_regs; eauto.
+Qed.
+
+(* every entry of the allocation maps a virtual register to a physical register of the same kind that
+   is one of the colours of that kind (hence not a restricted register, AllocProofs.colours_spec),
+   and every virtual register that occurs as an operand is allocated *)
+Theorem allocation_obeys_register_file_lemma rf is liveouts al :
+  regfile_ok rf = true -> regfile_kinds_ok rf = true -> allocate_registers rf is liveouts = OK al ->
+  (forall v c, al !! v = Some c -> virt v /\ phys c /\ id_kind c = id_kind v /\ In c (colours rf (id_kind v)))
+  /\ (forall i r, In i is -> In r (instr_registers i) -> virt (rid r) -> is_Some (al !! rid r)).
+Proof.
+  intros Hrf Hkf H. unfold allocate_registers in H.
+  set (allregs := flat_map instr_registers is) in *.
+  destruct (init_allocators rf allregs ∅) as [as0| |] eqn:E0; cbn [res_bind] in H; try discriminate.
+  destruct (interfere (add_all allregs as0) (List.combine is liveouts)) as [as2| |] eqn:E2; cbn [res_bind] in H; try discriminate.
+  assert (Wemp : Wall ∅) by (intros k a Hl; rewrite lookup_empty in Hl; discriminate).
+  assert (Remp : Rall rf ∅) by (intros k a Hl; rewrite lookup_empty in Hl; discriminate).
+  destruct (init_allocators_spec rf allregs ∅ as0 Hrf Wemp E0) as (W0 & _ & I3 & _).
+  destruct (add_all_spec allregs as0 W0) as (W1 & M01 & A3).
+  destruct (interfere_spec _ _ _ W1 E2) as (W2 & M12 & _).
+  assert (R2 : Rall rf as2) by (eapply interfere_regs; [|exact E2]; apply add_all_regs; eapply init_allocators_regs; eauto).
+  destruct (fold_merge_spec _ _ _ H) as (_ & F2 & F3).
+  split.
+  - intros v c Hl. destruct (F3 v c Hl) as [Hemp|(ka & alk & Hin & Ha & Hl')]; [rewrite lookup_empty in Hemp; discriminate|].
+    destruct ka as [k a]. apply elem_of_list_In, elem_of_map_to_list in Hin.
+    destruct (allocate_awf _ _ _ (W2 k a Hin) Ha) as (_ & K2 & _ & K4). destruct (K2 v c Hl') as (Hv & Hp & Hk).
+    repeat split; auto. specialize (K4 v c Hl'). cbn [snd] in K4. rewrite (R2 k a Hin) in K4.
+    assert (Ek : id_kind c = k).
+    { apply colours_spec in K4 as (p & Hp' & Hfam & Hid & _). unfold regfile_kinds_ok in Hkf. rewrite forallb_forall in Hkf.
+      specialize (Hkf p Hp'). apply N.eqb_eq in Hkf. congruence. }
+    rewrite <- Hk, Ek. exact K4.
+  - intros i r Hi Hr Hv. assert (Hall : In r allregs) by (apply in_flat_map; eauto).
+    destruct (I3 r Hall) as [a0 Ha0]. destruct M01 as [_ K01]. destruct (K01 _ _ Ha0) as (a1 & Ha1 & _).
+    assert (Hp1 : is_Some (a_poss a1 !! rid r)) by (apply (A3 r Hall Hv a1 Ha1)).
+    destruct M12 as [_ K12]. destruct (K12 _ _ Ha1) as (a2 & Ha2 & [_ Mp]).
+    assert (Hka : In (reg_kind r, a2) (map_to_list as2)) by (apply elem_of_list_In, elem_of_map_to_list; exact Ha2).
+    destruct (F2 _ Hka) as (alk & Ha & Hsub). cbn [snd] in Ha.
+    destruct (allocate_awf _ _ _ (W2 _ _ Ha2) Ha) as (_ & _ & K3 & _).
+    destruct (K3 (rid r) (Mp _ Hp1)) as [c Hc]. exists c. now apply Hsub.
 Qed.
